@@ -31,6 +31,33 @@ export { generateHashFromString, generateHashFromNumbers } from "./hash.js";
 
 const JSON_PROTO = Object.getPrototypeOf({});
 
+// `instanceof` only looks at the prototype chain: an object that merely inherits from Map.prototype
+// or Set.prototype has no entries, and walking it throws a TypeError.
+const mapSizeOf = Object.getOwnPropertyDescriptor(Map.prototype, "size")!.get!;
+const setSizeOf = Object.getOwnPropertyDescriptor(Set.prototype, "size")!.get!;
+function isMapInstance(value: unknown): value is Map<unknown, unknown> {
+  if (!(value instanceof Map)) {
+    return false;
+  }
+  try {
+    mapSizeOf.call(value);
+    return true;
+  } catch {
+    return false;
+  }
+}
+function isSetInstance(value: unknown): value is Set<unknown> {
+  if (!(value instanceof Set)) {
+    return false;
+  }
+  try {
+    setSizeOf.call(value);
+    return true;
+  } catch {
+    return false;
+  }
+}
+
 function deepmergeConstructor(options: any) {
   function isNotPrototypeKey(value: any) {
     return value !== "constructor" && value !== "prototype" && value !== "__proto__";
@@ -98,8 +125,8 @@ function deepmergeConstructor(options: any) {
       value !== null &&
       !(value instanceof RegExp) &&
       !(value instanceof Date) &&
-      !(value instanceof Map) &&
-      !(value instanceof Set) &&
+      !isMapInstance(value) &&
+      !isSetInstance(value) &&
       !ArrayBuffer.isView(value)
     );
   }
@@ -116,8 +143,8 @@ function deepmergeConstructor(options: any) {
           value === null ||
           value instanceof RegExp ||
           value instanceof Date ||
-          value instanceof Map ||
-          value instanceof Set ||
+          isMapInstance(value) ||
+          isSetInstance(value) ||
           ArrayBuffer.isView(value) ||
           // @ts-ignore
           value instanceof Buffer
@@ -126,8 +153,8 @@ function deepmergeConstructor(options: any) {
           value === null ||
           value instanceof RegExp ||
           value instanceof Date ||
-          value instanceof Map ||
-          value instanceof Set ||
+          isMapInstance(value) ||
+          isSetInstance(value) ||
           ArrayBuffer.isView(value);
 
   const mergeArray =
@@ -1510,14 +1537,14 @@ function mergeProjections(a: any, b: any): any {
     return out;
   }
   // Map / Set: both projections come from the same input, entry by entry in its iteration order
-  if (a instanceof Map && b instanceof Map) {
+  if (isMapInstance(a) && isMapInstance(b)) {
     const ea = [...a.entries()];
     const eb = [...b.entries()];
     if (ea.length === eb.length) {
       return new Map(ea.map(([k, v], i) => [mergeProjections(k, eb[i][0]), mergeProjections(v, eb[i][1])]));
     }
   }
-  if (a instanceof Set && b instanceof Set) {
+  if (isSetInstance(a) && isSetInstance(b)) {
     const ea = [...a];
     const eb = [...b];
     if (ea.length === eb.length) {
@@ -1823,7 +1850,7 @@ export class MapRuntype extends BaseRuntype {
     throw new Error(buildSchemaErrorMessage(ctx, "Cannot generate JSON Schema for Map"));
   }
   validate(ctx: ValidateContext, input: unknown): boolean {
-    if (input instanceof Map) {
+    if (isMapInstance(input)) {
       for (const [k, v] of input) {
         if (!this.keyParser.validate(ctx, k) || !this.valueParser.validate(ctx, v)) {
           return false;
@@ -1841,7 +1868,7 @@ export class MapRuntype extends BaseRuntype {
     return res;
   }
   reportDecodeError(ctx: ReportContext, input: unknown): DecodeError[] {
-    if (!(input instanceof Map)) {
+    if (!isMapInstance(input)) {
       return buildError(ctx, "expected Map", input);
     }
     let acc: DecodeError[] = [];
@@ -1888,7 +1915,7 @@ export class SetRuntype extends BaseRuntype {
     throw new Error(buildSchemaErrorMessage(ctx, "Cannot generate JSON Schema for Set"));
   }
   validate(ctx: ValidateContext, input: unknown): boolean {
-    if (input instanceof Set) {
+    if (isSetInstance(input)) {
       for (const v of input) {
         if (!this.itemParser.validate(ctx, v)) {
           return false;
@@ -1906,7 +1933,7 @@ export class SetRuntype extends BaseRuntype {
     return res;
   }
   reportDecodeError(ctx: ReportContext, input: unknown): DecodeError[] {
-    if (!(input instanceof Set)) {
+    if (!isSetInstance(input)) {
       return buildError(ctx, "expected Set", input);
     }
     let acc: DecodeError[] = [];
